@@ -80,8 +80,11 @@ type XSheet struct {
 	// RowOrder lists the row numbers (0-based) in the order their <row>
 	// elements are written; rows without cells give empty <row/> elements.
 	// nil = rows in order of first appearance in Cells.
-	RowOrder  []int
-	Merges    []XMerge
+	RowOrder []int
+	Merges   []XMerge
+	// RawMerges are extra <mergeCell ref=…/> values written verbatim after
+	// Merges (damaged references such as "#REF!:C3" left by a deleted row).
+	RawMerges []string
 	Dimension bool // write <dimension ref=…/>
 	Spans     bool // write spans= on rows
 	Missing   bool // declared in the workbook, but the part itself is not written (unreadable part)
@@ -439,10 +442,13 @@ func xSheetXML(s *XSheet, sstIndex map[*XCell]int) []byte {
 		sb.WriteString(`</row>`)
 	}
 	sb.WriteString(`</sheetData>`)
-	if len(s.Merges) > 0 {
-		fmt.Fprintf(&sb, `<mergeCells count="%d">`, len(s.Merges))
+	if len(s.Merges)+len(s.RawMerges) > 0 {
+		fmt.Fprintf(&sb, `<mergeCells count="%d">`, len(s.Merges)+len(s.RawMerges))
 		for _, m := range s.Merges {
 			fmt.Fprintf(&sb, `<mergeCell ref="%s:%s"/>`, XRef(m.C0, m.R0), XRef(m.C1, m.R1))
+		}
+		for _, m := range s.RawMerges {
+			fmt.Fprintf(&sb, `<mergeCell ref="%s"/>`, Esc(m))
 		}
 		sb.WriteString(`</mergeCells>`)
 	}
